@@ -881,6 +881,35 @@ def run_heap_order(chk, F):
                'make_heap: front() is not the pivot, get_content() is cut at the first entry and equal rows do not '
                'cancel' % bad.get('l'), key='E9|Heap_column::%s|heap-order|%s' % (f['name'].split('<')[0], f['line']))
     chk.expect_count('E9-heap-order', 'slot-by-slot fills from a caller range in Heap_column', n, 6)
+    # entries popped in decreasing order and stored again form a heap (a descending array is one) - unless their rows
+    # were renamed in between: a path that calls set_row_index on stored entries re-heapifies afterwards
+    r = 0
+    for f in F.functions:
+        if f.get('clsname') != 'Heap_column' or f.get('inst') not in (0, 2) or f.get('body') is None:
+            continue
+
+        def cl(x):
+            if ir.is_call(x) and ir.call_name(x) == 'set_row_index':
+                return ['RENAME']
+            if ir.is_call(x) and ir.call_name(x) in ('make_heap', 'sort', 'push_heap'):
+                return ['HEAP']
+            return []
+        if not ir.contains(f['body'], lambda y: 'RENAME' in cl(y)):
+            continue
+        r += 1
+        ps = [p_ for p_ in paths.enumerate_paths(f, cl, loop_mode='01', keep_conds=True, cap=40000)
+              if paths.consistent_constexpr(p_)]
+        bad = None
+        for p_ in ps:
+            t = p_.tags()
+            if 'RENAME' in t and 'HEAP' not in t[len(t) - 1 - t[::-1].index('RENAME'):] and bad is None:
+                bad = [e for e in p_.events if e[0] == 'RENAME'][-1][1]
+        chk.ob('E9-heap-order', 'Heap_column::%s makes column_ a heap again after renaming the rows of its entries'
+               % f['name'].split('<')[0], '%s:%d' % (rel(f['file']), f['line']), bad is None,
+               '' if bad is None else 'line %s: the rows are renamed through a map that need not be monotone and a path '
+               'returns without make_heap: the stored order is the one of the old rows' % bad.get('l'),
+               key='E9|Heap_column::%s|heap-order|renamed' % f['name'].split('<')[0])
+    chk.expect_count('E9-heap-order', 'functions of Heap_column renaming rows', r, 1)
 
 
 def run_order_before_count(chk, F):
